@@ -145,6 +145,30 @@ def viewKids (f : Path → Except Err View) (node : Path) :
     | .ok v => viewKids f node rest (AL.set c v acc)
     | .error e => .error e
 
+/-- where a (non-glob) port `key` of the node at `pos` leads, and the topology that governs the
+ports below it: a dictionary → `outer_path`; a tuple → `get_path(path)`; absent → `get_path((key,))` -/
+def portTarget (t : Tree) (topo : TopoEs) (pos : Path) (key : String) : Except Err (Path × TopoEs) :=
+  match AL.get key topo with
+  | some (.dict pes) => outerPath t pos pes
+  | some (.path p) =>
+    match t.walk pos p with
+    | some node => .ok (node, [])
+    | Option.none => .error .exception
+  | Option.none =>
+    match t.walk pos [key] with
+    | some node => .ok (node, [])
+    | Option.none => .error .exception
+
+/-- the node whose children a glob port `'*'` shows; `self.get_path(None)` is `self` -/
+def globTarget (t : Tree) (topo : TopoEs) (pos : Path) : Except Err (Path × TopoEs) :=
+  match AL.get "*" topo with
+  | some (.dict pes) => outerPath t pos pes
+  | some (.path p) =>
+    match t.walk pos p with
+    | some node => .ok (node, [])
+    | Option.none => .error .exception
+  | Option.none => .ok (pos, [])
+
 mutual
 /-- `self.schema_topology(schema, topology)` with `self` the node at `pos` -/
 def view (t : Tree) : Schema → TopoEs → Path → Except Err View
@@ -168,49 +192,20 @@ def viewEntries (t : Tree) : SchemaEs → TopoEs → Path → List (String × Vi
   | (key, sub) :: rest, topo, pos, acc =>
     let here : Except Err (List (String × View)) :=
       if key = "*" then
-        match AL.get key topo with
-        | some (.dict pes) =>
-          match outerPath t pos pes with
-          | .error e => .error e
-          | .ok (node, pes') =>
-            match t.find node with
-            | Option.none => .error .exception
-            | some n => viewKids (view t sub pes') node (AL.keys n.kids) acc
-        | some (.path p) =>
-          match t.walk pos p with
+        match globTarget t topo pos with
+        | .error e => .error e
+        | .ok (node, st) =>
+          match t.find node with
           | Option.none => .error .exception
-          | some node =>
-            match t.find node with
-            | Option.none => .error .exception
-            | some n => viewKids (view t sub []) node (AL.keys n.kids) acc
-        | Option.none =>   -- `self.get_path(None)` is `self`
-          match t.find pos with
-          | Option.none => .error .exception
-          | some n => viewKids (view t sub []) pos (AL.keys n.kids) acc
+          | some n => viewKids (view t sub st) node (AL.keys n.kids) acc
       else if key = "_divider" then .ok acc
       else
-        match AL.get key topo with
-        | some (.dict pes) =>
-          match outerPath t pos pes with
+        match portTarget t topo pos key with
+        | .error e => .error e
+        | .ok (node, st) =>
+          match view t sub st node with
+          | .ok v => .ok (AL.set key v acc)
           | .error e => .error e
-          | .ok (node, pes') =>
-            match view t sub pes' node with
-            | .ok v => .ok (AL.set key v acc)
-            | .error e => .error e
-        | some (.path p) =>
-          match t.walk pos p with
-          | Option.none => .error .exception
-          | some node =>
-            match view t sub [] node with
-            | .ok v => .ok (AL.set key v acc)
-            | .error e => .error e
-        | Option.none =>
-          match t.walk pos [key] with
-          | Option.none => .error .exception
-          | some node =>
-            match view t sub [] node with
-            | .ok v => .ok (AL.set key v acc)
-            | .error e => .error e
     match here with
     | .ok acc' => viewEntries t rest topo pos acc'
     | .error e => .error e
